@@ -21,7 +21,7 @@ RULE = ('cases = generated single-connection programs mixing modifications, obje
 ASSUMPTIONS = ['objects disowned by a rollback/abort after having been stored in a savepoint are not used again by the program '
                '(the statement promises un-adding, not re-addability; re-adding after abort is C11)',
                'blob writes inside savepoints are exercised in C13']
-BUDGET = {'quick': {'examples': 1500, 'workers': 8},
+BUDGET = {'quick': {'examples': 4000, 'workers': 8},
           'thorough': {'examples': 25000, 'workers': 16}}
 
 
@@ -40,6 +40,7 @@ def blob_strategy(n):
         st.tuples(st.just('savepoint')), st.tuples(st.just('savepoint')),
         st.tuples(st.just('rollback'), st.integers(0, 3)), st.tuples(st.just('rollback'), st.integers(0, 1)),
         st.tuples(st.just('read'), i),
+        st.tuples(st.just('minimize')),
         st.tuples(st.just('commit')), st.tuples(st.just('abort')),
     ).map(list)
     return st.fixed_dictionaries({'blob_kind': st.sampled_from(['fs', 'bmap']),
